@@ -18,13 +18,16 @@ func parseLoadFile94(reader io.Reader, coresize Address) (WarriorData, error) {
 	}
 
 	lineNum := 0
+	atEOF := false
 	breader := bufio.NewReader(reader)
-	for {
-		// empty lines and last lines without newlines seem to be missed
-		// should something else be used? or are these not worth handling?
+	for !atEOF {
+		// a last line without a newline is returned together with the error
 		raw_line, err := breader.ReadString('\n')
 		if err != nil {
-			break
+			if len(raw_line) == 0 {
+				break
+			}
+			atEOF = true
 		}
 		lineNum++
 
@@ -40,7 +43,7 @@ func parseLoadFile94(reader io.Reader, coresize Address) (WarriorData, error) {
 				data.Name = strings.TrimSpace(raw_line[5:])
 			} else if strings.HasPrefix(lower, ";author") {
 				data.Author = strings.TrimSpace(raw_line[7:])
-			} else if strings.HasPrefix(lower, ";strategy") {
+			} else if strings.HasPrefix(lower, ";strategy") && len(raw_line) > 10 {
 				data.Strategy += raw_line[10:]
 			}
 			continue
@@ -274,13 +277,16 @@ func parseLoadFile88(reader io.Reader, coresize Address) (WarriorData, error) {
 	}
 
 	lineNum := 0
+	atEOF := false
 	breader := bufio.NewReader(reader)
-	for {
-		// empty lines and last lines without newlines seem to be missed
-		// should something else be used? or are these not worth handling?
+	for !atEOF {
+		// a last line without a newline is returned together with the error
 		raw_line, err := breader.ReadString('\n')
 		if err != nil {
-			break
+			if len(raw_line) == 0 {
+				break
+			}
+			atEOF = true
 		}
 		lineNum++
 
@@ -296,7 +302,7 @@ func parseLoadFile88(reader io.Reader, coresize Address) (WarriorData, error) {
 				data.Name = strings.TrimSpace(raw_line[5:])
 			} else if strings.HasPrefix(lower, ";author") {
 				data.Author = strings.TrimSpace(raw_line[7:])
-			} else if strings.HasPrefix(lower, ";strategy") {
+			} else if strings.HasPrefix(lower, ";strategy") && len(raw_line) > 10 {
 				data.Strategy += raw_line[10:]
 			}
 			continue
